@@ -190,8 +190,14 @@ def pmap(func, items, chunksize=None, nproc=None, isolate=True):
                 raise HarnessError("worker failed on %s:\n%s" % (r[2], r[1]))
             results[i] = r[1]
             pending.discard(i)
+        clean = not broken
+    except BaseException:
+        clean = False
+        raise
     finally:
-        ex.shutdown(wait=False, cancel_futures=True)
+        # normal completion: wait for the pool to wind down (an abrupt shutdown races with the executor's
+        # own management thread); only abandon it when something went wrong
+        ex.shutdown(wait=clean, cancel_futures=True)
     if pending:
         # isolate: every unfinished item in its own process
         for i in sorted(pending):
